@@ -22,11 +22,16 @@ import (
 )
 
 const (
-	rootDir   = "/nh/snapshot-part-1/snapshot-1-1"
-	shardID   = 1
-	replicaID = 1
-	fromID    = 2
-	did       = 7
+	rootDir = "/nh/snapshot-part-1/snapshot-1-1"
+	shardID = 1
+	did     = 7
+)
+
+// the replica id of the replica under test and the id of the sender of received
+// snapshots: any uint64; set per case (header rid= / from=)
+var (
+	replicaID uint64 = 1
+	fromID    uint64 = 2
 )
 
 // ---------------------------------------------------------------------------
@@ -35,8 +40,11 @@ const (
 var (
 	reShrunk = regexp.MustCompile(`^snapshot-([0-9A-F]+)\.shrunk$`)
 	reSnap   = regexp.MustCompile(`^snapshot-([0-9A-F]+)\.gbsnap$`)
-	reGen    = regexp.MustCompile(`^snapshot-([0-9A-F]+)-[0-9A-F]+\.generating$`)
-	reRecv   = regexp.MustCompile(`^snapshot-([0-9A-F]+)-[0-9A-F]+\.receiving$`)
+	// what the code writes (getDirName "snapshot-%016X", getTempDirName "<dir>-%d.<suffix>"):
+	// the harness classifies with its own expressions, not with the repository's
+	reFinal = regexp.MustCompile(`^snapshot-([0-9A-F]{16})$`)
+	reGen   = regexp.MustCompile(`^snapshot-([0-9A-F]{16})-[0-9]{1,20}\.generating$`)
+	reRecv  = regexp.MustCompile(`^snapshot-([0-9A-F]{16})-[0-9]{1,20}\.receiving$`)
 	reExt    = regexp.MustCompile(`^external-file-([0-9]+)$`)
 )
 
@@ -48,17 +56,19 @@ func hexIdx(s string) string {
 	return strconv.FormatUint(v, 10)
 }
 
-// dirClass uses the repository's own regular expressions for the three kinds
-// of directory names.
+// dirClass classifies a directory name by the format the code writes names in.
 func dirClass(name string) string {
-	if m := hk.SnapshotDirNamePartsRe.FindStringSubmatch(name); len(m) == 2 {
+	if m := reFinal.FindStringSubmatch(name); len(m) == 2 {
 		return "final:" + hexIdx(m[1])
 	}
-	if hk.GenSnapshotDirNameRe.MatchString(name) {
-		return "gen:" + hexIdx(reGen.FindStringSubmatch(name)[1])
+	if m := reGen.FindStringSubmatch(name); len(m) == 2 {
+		return "gen:" + hexIdx(m[1])
 	}
-	if hk.RecvSnapshotDirNameRe.MatchString(name) {
-		return "recv:" + hexIdx(reRecv.FindStringSubmatch(name)[1])
+	if m := reRecv.FindStringSubmatch(name); len(m) == 2 {
+		return "recv:" + hexIdx(m[1])
+	}
+	if m := reExt.FindStringSubmatch(name); len(m) == 2 {
+		return "other:" + m[1]
 	}
 	return "other:" + name
 }
@@ -551,7 +561,7 @@ func chunksOf(index uint64, n uint64) []pb.Chunk {
 			FileChunkId: uint64(i), FileChunkCount: uint64(len(parts)),
 			ChunkSize: uint64(len(p)), Index: index, Term: 1, OnDiskIndex: index,
 			Filepath: fmt.Sprintf("snapshot-%016X.gbsnap", index), FileSize: uint64(len(data)),
-			Membership: pb.Membership{Addresses: map[uint64]string{1: "a1", 2: "a2"}},
+			Membership: pb.Membership{Addresses: map[uint64]string{replicaID: "a1", fromID: "a2"}},
 			Data:       append([]byte(nil), p...),
 		})
 	}
@@ -661,7 +671,7 @@ func (w *world) do(c command) (outcome string) {
 			ss, ok := w.saved[c.i]
 			if !ok {
 				ss = pb.Snapshot{ShardID: shardID, Index: c.i, Term: 1, Type: pb.RegularStateMachine,
-					Membership: pb.Membership{Addresses: map[uint64]string{1: "a1"}}}
+					Membership: pb.Membership{Addresses: map[uint64]string{replicaID: "a1"}}}
 			}
 			ood, err := w.snap.VerifCommit(ss)
 			switch {
